@@ -168,7 +168,7 @@ Proof. vm_compute. split; reflexivity. Qed.
 (* L4 right-to-left is false: an error after EndTop is never seen by Len; left-to-right is false
    too: Len has its own error *)
 Example schema_len_error_iff_false :
-  snd (scan true cex_error_after_endtop) = Err 301 5 /\ schema_len cex_error_after_endtop = VLen 1 /\
+  snd (scan true cex_error_after_endtop) = Err 301 6 /\ schema_len cex_error_after_endtop = VLen 1 /\
   schema_len [] = VErr 202 0 /\ snd (scan true []) = Done.
 Proof. vm_compute. repeat split; reflexivity. Qed.
 
@@ -322,3 +322,21 @@ Example schema_len_stable_needs_no_hash :
   let bs := bytes_of [49; 35; 10; 49; 49]%N in
   schema_len bs = VLen 2 /\ schema_len (firstn 2 bs) = VLen 1.
 Proof. vm_compute. split; reflexivity. Qed.
+
+(* ================================================================== *)
+(* 4. Len after an inline annotation object (fix 0ff4f91)              *)
+(* ================================================================== *)
+(* "1 // {min: 1}x" and "1 // {min: 1} foo": the foreign byte after the annotation object ends the
+   schema; the returned prefix is "1 // {min: 1}" and the prefix theorem holds for it *)
+Definition len_after_annotation_1 : bytes :=
+  bytes_of [49; 32; 47; 47; 32; 123; 109; 105; 110; 58; 32; 49; 125; 120]%N.
+Definition len_after_annotation_2 : bytes :=
+  bytes_of [49; 32; 47; 47; 32; 123; 109; 105; 110; 58; 32; 49; 125; 32; 102; 111; 111]%N.
+Example schema_len_after_annotation_object :
+  schema_len len_after_annotation_1 = VLen 13 /\
+  schema_len len_after_annotation_2 = VLen 13 /\
+  snd (scan true len_after_annotation_1) = Done /\
+  snd (scan false len_after_annotation_1) = Err 301 13 /\
+  snd (scan false (firstn 13 len_after_annotation_1)) = Done /\
+  schema_len (firstn 13 len_after_annotation_1) = VLen 13.
+Proof. vm_compute. repeat split; reflexivity. Qed.
